@@ -196,6 +196,22 @@ Definition np_step (s : dstore) (o : xop) : dstore * doutcome :=
           | Ok r => (s ++ [DV r false], DNew (DV r false))
           | Err e => (s, DErr e) end
       | _ => skip end
+  | XOp (OCopyLike i (CObj j)) =>                       (* np.copyto(a, b): b is broadcast to a; a must be writeable *)
+      match nth_error s i, nth_error s j with
+      | Some (DV v ro), Some (DV w _) =>
+          if ro then (s, DErr EValue)
+          else if Nat.eqb j i then (s, DUpd (DV v ro))
+          else if Nat.eqb (length w) (length v) then (upd s i (DV w ro), DUpd (DV w ro))
+          else if Nat.eqb (length w) 1 then (upd s i (DV (repeat (hd 0 w) (length v)) ro), DUpd (DV (repeat (hd 0 w) (length v)) ro))
+          else (s, DErr EValue)
+      | _, _ => skip end
+  | XOp (OToFlat i _) =>                                 (* a.flatten(), whatever the buffer held *)
+      match nth_error s i with
+      | Some (DV v _) => (s, DDense v)
+      | Some (DL b) => (s, DDenseB b)
+      | Some (DA m _) => (s, DDense (concat m))
+      | Some (DB m) => (s, DDenseB (concat m))
+      | None => skip end
   | XOp (ONeg i) =>
       match nth_error s i with
       | Some (DV v _) => (s ++ [DV (np_neg v) false], DNew (DV (np_neg v) false))
